@@ -324,6 +324,83 @@ def make_selector(rng, n, Slice):
     return dict(kind='sample', N=N), Slice.Sample(N)
 
 
+def split_replay(ctx, LT, Slice):
+    """LisSplit.tla: the cut of a LIS index into logical files.  TLC checks the loop as coded against the abstract
+    statement (and refutes the two earlier designs); every entry sequence in the bound is rendered as a real LIS file,
+    converted by the real converter and the LAS files found compared with the design's (LisSplitTable)."""
+    import re
+    from ..gen import lislog as GLL, repcodes as RC
+    rng = ctx.subrng('c11-split')
+    cc = dict(MaxLen=ctx.pick('4', '6'))
+    invs = ['NeverRaises', 'SplitOK', 'NoConsLost', 'EveryPassWritten', 'NoAbort']
+    ctx.tlc_check('MC_LisSplit', 'LisSplit', cfg_consts=dict(cc, Variant='"as_coded"'), invariants=invs, need_actions=['Step', 'Finish'], timeout=1500)
+    for name, inv in (('abort_on_empty', 'EveryPassWritten'), ('no_pass_split', 'SplitOK')):
+        r = ctx.tlc_check('MC_LisSplit_' + name, 'LisSplit', cfg_consts=dict(cc, Variant='"%s"' % name), invariants=[inv], expect_ok=False, timeout=1500)
+        if r.ok():
+            ctx.vacuity.append('LisSplit variant %s was expected to violate %s but TLC found no counterexample' % (name, inv))
+    ft = os.path.join(ctx.wdir('lissplit'), 'rows.json')
+    ctx.tlc_check('MC_LisSplitTable', 'LisSplitTable', cfg_consts=dict(MaxLen=ctx.pick('4', '5'), Variant='"as_coded"'), env={'OUT_TABLE': ft},
+                  workers=1, coverage=False, timeout=1500)
+    rows = json.load(open(ft))
+    wd = ctx.wdir('lissplit_files')
+    chans = [dict(mnem=b'DEPT', units=b'FEET', size=4, samples=1, rc=68, nvals=1), dict(mnem=b'CH01', units=b'    ', size=4, samples=1, rc=68, nvals=1)]
+    n = 0
+    for row in sorted(rows, key=lambda r: (len(r['file']), r['file'])):
+        seq = row['file']
+        n += 1
+        nfr = {}
+        lrs = [GLL.file_head()]
+        for pos, k in enumerate(seq, 1):
+            if k == 'CONS':
+                lrs.append(bytes([34, 0]) + b'IA\x04\x00TYPE    CONS' + b'\x00A\x04\x00MNEM    ' + rng.choice([b'BS  ', b'WN  ', b'FN  '])
+                           + b'EA\x04\x00VALU    ' + (b'T%03d' % pos))
+            elif k == 'OTHER':
+                lrs.append(rng.choice([bytes([34, 0]) + b'IA\x04\x00TYPE    ' + rng.choice([b'TOOL', b'OUTP']) + b'\x00A\x04\x00MNEM    BS  ',
+                                       GLL.misc(232, b'operator text'), GLL.file_tail(), GLL.file_head()]))
+            else:
+                up = rng.random() < 0.5
+                lrs.append(GLL.dfsr({4: (1, 66, 1 if up else 255), 12: (4, 68, -999.25)}, chans))
+                if k == 'P1':
+                    nfr[pos] = rng.randint(1, 4)
+                    lrs.append(GLL.data_record(0, b'', [RC.enc68(1000.0 * pos + (-j if up else j)) + RC.enc68(float(pos)) for j in range(nfr[pos])]))
+        if rng.random() < 0.7:
+            lrs.append(GLL.file_tail())
+        maxpay = rng.choice([60, 1020])
+        data, _ = GLP.render(lrs, GLP.layout_from_splits([GLP.random_split(rng, len(x), maxpay) for x in lrs], rng, (0, 0, 0)), rng.choice(['none', 'le']))
+        path_in = os.path.join(wd, 's%d.lis' % n)
+        with open(path_in, 'wb') as f:
+            f.write(data)
+        outdir = os.path.join(wd, 'o%d' % n)
+        case = dict(entries=seq, maxpay=maxpay)
+        ctx.case(('split', n), any(k == 'P1' for k in seq))
+        try:
+            res = LT.single_lis_file_to_las(path_in, 'first', os.path.join(outdir, 'f'), Slice.Slice(), set(), 16, '.3f')
+        except Exception as e:
+            ctx.fail('LIS converter raised %s: %s for the index entries %s' % (type(e).__name__, e, seq), case, sig=dict(kind='split-exception'))
+            continue
+        got = []
+        for fn in sorted(os.listdir(outdir), key=lambda x: int(re.search(r'_(\d+)\.las$', x).group(1))) if os.path.isdir(outdir) else []:
+            text = open(os.path.join(outdir, fn)).read()
+            tags = [int(t) for t in re.findall(r'\bT(\d{3})\b', text)]
+            rowsA = []
+            if '~A' in text:
+                rowsA = [l.split() for l in text[text.index('~A'):].splitlines()[1:] if l.strip() and not l.startswith('#')]
+            ps = 0
+            if rowsA:
+                ps = int(round(float(rowsA[0][0]) / 1000.0))
+                if len(rowsA) != nfr.get(ps) or any(float(r[1]) != ps for r in rowsA):
+                    ps = -ps
+            got.append(dict(cons=tags, **{'pass': ps}))
+        want = [dict(cons=w['cons'], **{'pass': w['pass']}) for w in row['las']]
+        if res.exception or got != want or res.las_count != len(want):
+            ctx.fail('LIS index entries %s: LAS files %s (result: exception=%s, las_count=%d); the log passes with frames are at %s and the split gives %s'
+                     % (seq, got, res.exception, res.las_count, [p for p, k in enumerate(seq, 1) if k == 'P1'], want), case,
+                     sig=dict(kind='split', exc=bool(res.exception)))
+        shutil.rmtree(outdir, ignore_errors=True)
+        os.remove(path_in)
+    ctx.notes['split_sequences_replayed'] = n
+
+
 def run(ctx):
     repo.setup()
     from ..core import quiet_logging
@@ -334,6 +411,7 @@ def run(ctx):
     from TotalDepth.LAS.core import LASRead
     from TotalDepth.common import Slice
     design(ctx)
+    split_replay(ctx, LT, Slice)
     rng = ctx.subrng('c11')
     wd = ctx.wdir('files')
     conv = {'RP66V1': RT.single_rp66v1_file_to_las, 'LIS': LT.single_lis_file_to_las, 'BIT': BT.single_bit_path_to_las_path}
